@@ -6,10 +6,18 @@ TECH = "bounded symbolic execution of the real Go SSA (go/ssa) with SMT-decided 
 claims = {
  "C01": ("DESIGN.md §4 C01", "Whole request path (Handler, Parse, Plan, Execute, Clean, Emit, merger) interpreted symbolically against evaluating fake services and a single-server reference, for every scenario operation x lazily case-split world (list lengths <= k, nulls, duplicates) x 5 gateway configurations; variable values and scalar leaves stay symbolic and are compared by the solver.",
          "gqlparser runs natively on concrete strings; scenario schemas/operations are a fixed list; one canonical goroutine schedule; encoding/json = abstract codec"),
+ "C02": ("DESIGN.md §4 C02", "Same interpreted request path as C01 with per-sub-request obligations: every sub-request the fake services receive is parsed and validated by the real gqlparser against the receiving service's own schema; every variable it uses is declared and accompanied by the client's (symbolic) value; the union of sub-requests covers every client-selected (type, field); additions are only id/__typename/node.",
+         "gqlparser runs natively; scenario list; worlds with non-empty lists so every child step is issued; canonical schedule"),
+ "C06": ("DESIGN.md §4 C06", "Mutation operations over two services with mutation roots, x 3 configurations (plain, id hint, caching planner primed with the same-selection query) x single downstream fault (which service, which call): each selected mutation root field is executed exactly once per client request in a `mutation` sub-request at its owner, everything else is a `query` through node.",
+         "gqlparser runs natively; scenario list of 6 mutation operations; single faults only; canonical schedule"),
  "C07": ("DESIGN.md §4 C07", "parseRequest/IsBatchMode over every JSON shape of the descriptor and injectFile over every path of <= 4-5 structured segments (numerals symbolic in [-2,3]) x variable trees: no panic (every implicit Go run-time check is an obligation), acceptance iff well-formed, upload lands where the path says.",
          "bodies are renderings of JSON shapes (not arbitrary bytes); encoding/json = abstract codec over the real decoder for concrete text"),
+ "C08": ("DESIGN.md §4 C08", "Real Handler/queryHandler closures/Emit/Parse/AsyncMapReduce under every interleaving (stateful search with partial-order reduction at visible operations + happens-before race detector) for batches of <= 2 (quick) / 3 (thorough) operations drawn from an 11-class pool (ok, mutation, exec error, partial, slow, plan error, introspection, syntax error, unknown field, ambiguous, wrong operationName); differential oracle: result i equals what the same operation got when sent alone.",
+         "executor is a harness fake (real planner behind a failing wrapper); gqlparser native; engine's model of the Go runtime primitives"),
  "C11": ("DESIGN.md §4 C11", "Real Query/queryBatch/fetch with real AsyncMapReduce: all interleavings for N<=2..3 with m symbolic; canonical schedule for N<=7..12, m symbolic; one inductive step of the reducer closure from an arbitrary valid accumulator (any completion order, any chunk count <= nmax); transport failure bits symbolic.",
          "http client = harness transport; JSON = abstract codec; engine's model of channels/WaitGroup/select"),
+ "C12": ("DESIGN.md §4 C12", "executeRequests/setIMap/indexMap with <= 3..4 requests whose entity ids are symbolic string atoms (the solver case-splits every equality pattern), two sub-queries, with/without a forwarded client variable and the id-to-type hint: one call per service and level, exactly the distinct (id, sub-query) lookups are sent, every request receives the answer computed for its own entity and step, answers are deep copies; plus the pipeline kernel counting batched calls per service against plan levels for lists up to k.",
+         "ids are atoms without '#'/':'; gqlparser native; canonical schedule"),
  "C20": ("DESIGN.md §4 C20", "AsyncMapReduce[int,int,[]int] under every interleaving (stateful search, no pre-emption bound) for n<=3 (quick) / 4 (thorough), failure bit per item symbolic, with a happens-before race detector, deadlock and goroutine-leak detection.",
          "engine's model of channels, select, WaitGroup, defer; map/reduce functions neither panic nor block"),
 }
